@@ -31,6 +31,8 @@ type HistGen struct {
 	nonce uint64
 	// Touched tx ids / recent keys for observation
 	Watch []string
+	// Pause (seconds) is added to the timestamp of the next block built (retarget mode only)
+	Pause uint32
 }
 
 func (h *HistGen) nextNonce() uint64 { h.nonce++; return h.nonce + 1<<32 }
@@ -133,6 +135,13 @@ func (h *HistGen) Block(br *Branch, txs []interfaces.Transaction, o ...MineOpts)
 	if len(o) == 0 {
 		o = []MineOpts{{Miner: h.R.Intn(NumUsers + 1)}}
 	}
+	if h.S.Retarget {
+		o[0].Timestamp = h.S.BranchTip(br).Timestamp + 1 + h.Pause
+		if len(br.Blocks) == 0 {
+			o[0].Timestamp = h.S.N.Genesis.Timestamp + 1 + h.Pause
+		}
+		h.Pause = 0
+	}
 	b, err := h.S.N.Mine(h.S.BranchTip(br), txs, o...)
 	if err != nil {
 		panic("harness: mine: " + err.Error())
@@ -217,7 +226,12 @@ func (h *HistGen) HonestBlock(br *Branch, maxTx int) *types.Block {
 
 // Deliver emits the op and returns (reply, tip id).
 func (h *HistGen) Deliver(b *types.Block) (string, string) {
-	out := h.Emit("deliver %s", h.S.N.Describe(b))
+	var out string
+	if h.S.Retarget {
+		out = h.Emit("deliverw %d %x %s", b.Timestamp, b.Bits, h.S.N.Describe(b))
+	} else {
+		out = h.Emit("deliver %s", h.S.N.Describe(b))
+	}
 	f := strings.Fields(out)
 	for _, tx := range b.Transactions {
 		h.Watch = append(h.Watch, ID(tx.Hash()))
